@@ -544,7 +544,7 @@ def replay_cmd(path: str) -> int:
             import text_replay
             obs = ask(tool, ["asm " + doc["recipe"]["source"].replace("\n", "\\n")])[0]
             exp = doc["replay"]["expected_tokens"]
-            lines = (obs.get("code") or []) if isinstance(obs, dict) else []
+            lines = (obs.get(doc["recipe"].get("list", "code")) or []) if isinstance(obs, dict) else []
             got = text_replay.TOK.findall(lines[-1]) if lines else []
             r = {"source": doc["recipe"]["source"], "observed": obs, "emitted_tokens": got, "expected_tokens": exp,
                  "mismatch": [] if got == exp else [f"emitted tokens {got} expected {exp}"]}
